@@ -84,7 +84,11 @@ impl SampleStreamTrack {
 
     /// Stop this track by marking it as ended
     pub fn stop(&self) {
+        #[cfg(rustrtc_verif)]
+        crate::verif::sched("stop_store");
         self.ended.store(true, std::sync::atomic::Ordering::SeqCst);
+        #[cfg(rustrtc_verif)]
+        crate::verif::sched("stop_notify");
         self.notify.notify_waiters();
     }
 }
@@ -152,6 +156,8 @@ pub fn sample_track(
 
 impl Clone for SampleStreamSource {
     fn clone(&self) -> Self {
+        #[cfg(rustrtc_verif)]
+        crate::verif::sched("clone_add");
         self.active_senders
             .fetch_add(1, std::sync::atomic::Ordering::Relaxed);
         Self {
@@ -169,12 +175,16 @@ impl Clone for SampleStreamSource {
 
 impl SampleStreamSource {
     fn try_send_drop_oldest(&self, sample: MediaSample) -> MediaResult<()> {
+        #[cfg(rustrtc_verif)]
+        crate::verif::sched("src_closed");
         if self.source_closed.load(Ordering::Acquire) {
             return Err(MediaError::Closed);
         }
 
         let sample = match self.queue.push(sample) {
             Ok(()) => {
+                #[cfg(rustrtc_verif)]
+                crate::verif::sched("src_notify");
                 self.notify.notify_one();
                 return Ok(());
             }
@@ -182,13 +192,19 @@ impl SampleStreamSource {
         };
 
         // Queue full: try drop-oldest under a short critical section.
+        #[cfg(rustrtc_verif)]
+        crate::verif::sched("src_trylock");
         let _pop_guard = match self.pop_lock.try_lock() {
             Some(guard) => guard,
             None => return Ok(()),
         };
+        #[cfg(rustrtc_verif)]
+        let _verif_before_unlock = VerifSchedOnDrop("src_popunlock");
 
         let _ = self.queue.pop();
         if self.queue.push(sample).is_ok() {
+            #[cfg(rustrtc_verif)]
+            crate::verif::sched("src_notify");
             self.notify.notify_one();
         }
 
@@ -254,6 +270,8 @@ impl SampleStreamSource {
                 actual: sample.kind(),
             });
         }
+        #[cfg(rustrtc_verif)]
+        crate::verif::sched("src_closed");
         if self.source_closed.load(Ordering::Acquire) {
             return Err(MediaError::Closed);
         }
@@ -261,6 +279,8 @@ impl SampleStreamSource {
         self.queue
             .push(sample)
             .map_err(|_| MediaError::WouldBlock)?;
+        #[cfg(rustrtc_verif)]
+        crate::verif::sched("src_notify");
         self.notify.notify_one();
         Ok(())
     }
@@ -278,13 +298,85 @@ impl SampleStreamSource {
 
 impl Drop for SampleStreamSource {
     fn drop(&mut self) {
+        #[cfg(rustrtc_verif)]
+        crate::verif::sched("drop_sub");
         if self
             .active_senders
             .fetch_sub(1, std::sync::atomic::Ordering::AcqRel)
             == 1
         {
+            #[cfg(rustrtc_verif)]
+            crate::verif::sched("drop_close");
             self.source_closed.store(true, Ordering::Release);
+            #[cfg(rustrtc_verif)]
+            crate::verif::sched("drop_notify");
             self.notify.notify_waiters();
+        }
+    }
+}
+
+/// Verification hooks (compiled only with `--cfg rustrtc_verif`).
+///
+/// Every shared-memory access of the push paths, `Clone`, `Drop`, `stop()` and `recv()` is
+/// preceded by a `crate::verif::sched(label)` point. `VerifSchedOnDrop` is declared right after
+/// a lock guard so that it is dropped right before it: a scheduling point in front of the
+/// implicit unlock on every exit path.
+#[cfg(rustrtc_verif)]
+struct VerifSchedOnDrop(&'static str);
+
+#[cfg(rustrtc_verif)]
+impl Drop for VerifSchedOnDrop {
+    fn drop(&mut self) {
+        crate::verif::sched(self.0);
+    }
+}
+
+/// Read-only projection of the queue state shared by a track and its sources.
+#[cfg(rustrtc_verif)]
+#[derive(Debug, Clone, PartialEq, Eq)]
+pub struct VerifQueueSnapshot {
+    pub head: usize,
+    pub tail: usize,
+    pub source_closed: bool,
+    pub ended: bool,
+    pub pop_locked: bool,
+    pub capacity: usize,
+}
+
+/// Handles on the source-side counters that stay readable after every source is dropped.
+#[cfg(rustrtc_verif)]
+#[derive(Clone)]
+pub struct VerifSourceProbe {
+    active_senders: Arc<std::sync::atomic::AtomicUsize>,
+}
+
+#[cfg(rustrtc_verif)]
+impl VerifSourceProbe {
+    pub fn active_senders(&self) -> usize {
+        self.active_senders.load(Ordering::SeqCst)
+    }
+}
+
+#[cfg(rustrtc_verif)]
+impl SampleStreamTrack {
+    pub fn verif_snapshot(&self) -> VerifQueueSnapshot {
+        let (head, tail) = self.queue.verif_head_tail();
+        VerifQueueSnapshot {
+            head,
+            tail,
+            source_closed: self.source_closed.load(Ordering::SeqCst),
+            ended: self.ended.load(Ordering::SeqCst),
+            pop_locked: self.pop_lock.is_locked(),
+            capacity: self.queue.capacity(),
+        }
+    }
+}
+
+#[cfg(rustrtc_verif)]
+impl SampleStreamSource {
+    pub fn verif_probe(&self) -> VerifSourceProbe {
+        VerifSourceProbe {
+            active_senders: self.active_senders.clone(),
         }
     }
 }
@@ -493,24 +585,40 @@ impl MediaStreamTrack for SampleStreamTrack {
 
     async fn recv(&self) -> MediaResult<MediaSample> {
         loop {
+            #[cfg(rustrtc_verif)]
+            crate::verif::sched("r_ended");
             if self.ended.load(Ordering::SeqCst) {
                 return Err(MediaError::EndOfStream);
             }
 
             {
+                #[cfg(rustrtc_verif)]
+                crate::verif::sched("r_lock");
                 let _pop_guard = self.pop_lock.lock();
+                #[cfg(rustrtc_verif)]
+                let _verif_before_unlock = VerifSchedOnDrop("r_unlock");
                 if let Some(sample) = self.queue.pop() {
                     return Ok(sample);
                 }
 
+                #[cfg(rustrtc_verif)]
+                crate::verif::sched("r_closed");
                 if self.source_closed.load(Ordering::Acquire) {
+                    #[cfg(rustrtc_verif)]
+                    crate::verif::sched("r_setended");
                     self.ended.store(true, Ordering::SeqCst);
                     return Err(MediaError::EndOfStream);
                 }
             }
 
+            #[cfg(rustrtc_verif)]
+            crate::verif::sched("r_await");
             self.notify.notified().await;
+            #[cfg(rustrtc_verif)]
+            crate::verif::sched("r_recheck");
             if self.source_closed.load(Ordering::Acquire) && self.queue.is_empty() {
+                #[cfg(rustrtc_verif)]
+                crate::verif::sched("r_setended");
                 self.ended.store(true, Ordering::SeqCst);
                 return Err(MediaError::EndOfStream);
             }
